@@ -75,6 +75,7 @@ impl Gen<'_> {
     fn flags(&mut self, k: u64) -> u64 {
         let extra = [2u64, 4, 8, 0x10, 0x20, 0x40, 0x100, 0x200, 0x400, 0x800, 1 << 52, 1 << 58, 1 << 62, 1 << 63];
         let mut f = P;
+        if self.rng.chance(2, 5) { f |= 6; }   // writable and user-accessible often enough for parent rights to matter
         for _ in 0..self.rng.below(4) {
             f |= self.rng.pick(&extra);
         }
@@ -153,6 +154,10 @@ pub fn gen(prop: &str, seed: u64, thorough: bool, out: &mut impl Write) {
                 // look at the rights of the page right away (and of a neighbour under another entry)
                 ops.extend([12, page]);
                 ops.extend([12, page ^ (1 << 21)]);
+                // ... and of everything mapped so far: rights are AND-ed along the walk, so a flag put into
+                // the wrong parent entry shows only at addresses that share that entry but not the right one
+                let keys: Vec<(u64, u64)> = g.mapped.keys().copied().collect();
+                for (_, p) in keys.iter().take(10) { ops.extend([12, *p]); }
             } else if roll < 70 {
                 let page = g.any_page(k);
                 ops.extend([7, k, page]);
